@@ -601,6 +601,11 @@ func (k *Key) UnmarshalCBOR(data []byte) error {
 	if err := decMode.Unmarshal(data, &tmp); err != nil {
 		return err
 	}
+	// The CBOR decoder strips the self-described CBOR tag from map keys: a
+	// label wrapped in it is not an int / tstr.
+	if ensureUntaggedHeaderLabels(data) != nil {
+		return errors.New("invalid label type: tagged item")
+	}
 
 	*k = Key{}
 	kty, exist, err := decodeInt(tmp, keyLabelKeyType)
